@@ -55,6 +55,10 @@ type Store struct {
 	// cache view of the manager cache (PKO CRs) when lag is enabled
 	Lag       bool
 	cacheObjs map[Key]map[string]any
+	// LagCreates: a created PKO object stays invisible to cached reads until SyncCreates (the
+	// "create not yet visible" window of the manager cache). Invisible holds those keys.
+	LagCreates bool
+	Invisible  map[Key]bool
 	// immutable spec fields of ObjectSets enforced like the CRD's CEL rules
 	mapper *meta.DefaultRESTMapper
 }
@@ -66,6 +70,7 @@ func NewStore() *Store {
 		kinds:       map[schema.GroupKind]KindInfo{},
 		RejectNames: map[string]bool{},
 		cacheObjs:   map[Key]map[string]any{},
+		Invisible:   map[Key]bool{},
 		mapper:      meta.NewDefaultRESTMapper(nil),
 	}
 }
@@ -231,6 +236,9 @@ func (s *Store) get(k Key, cached bool) (map[string]any, error) {
 		src = s.cacheObjs
 	}
 	o, ok := src[k]
+	if ok && cached && s.Invisible[k] {
+		ok = false
+	}
 	if !ok {
 		return nil, apierrors.NewNotFound(gr(schema.GroupKind{Group: k.Group, Kind: k.Kind}), k.Name)
 	}
@@ -248,6 +256,9 @@ func (s *Store) list(gk schema.GroupKind, ns string, sel labels.Selector, cached
 			continue
 		}
 		if ns != "" && k.NS != ns {
+			continue
+		}
+		if cached && s.Invisible[k] {
 			continue
 		}
 		if sel != nil {
@@ -769,4 +780,13 @@ func NewStoreLike(o *Store) *Store {
 		s.Register(ki.GVK, ki.Namespaced, ki.StatusSub)
 	}
 	return s
+}
+
+// SyncCreates makes every created-but-invisible object visible to cached reads; returns how many.
+func (s *Store) SyncCreates() int {
+	s.mu.Lock()
+	defer s.mu.Unlock()
+	n := len(s.Invisible)
+	s.Invisible = map[Key]bool{}
+	return n
 }
